@@ -19,7 +19,7 @@ RULE = ('operator in {map, starmap, filter, scan, scan(reduce=True)} whose user 
         'absent (ignore, router) / replaced in place by the mapped value (error.map); the dead-letter observable receives the '
         'exceptions in source order and completes once with the stream; without handler the subscriber gets the outputs before '
         'the first failure and then on_error with that exception. Non-trivial = at least one failing and one passing item.')
-DEEP_PROBES = ('an unhandled error travelling through each of 25 further operators before it reaches the demultiplexer; scan(reduce=True) as the failing operator; every input of up to 3 items subscribed a second time on the same observable; four exception classes; two error routers in one pipeline, run twice on the same pipeline object; the failing operator in front of group_by / roll / split / time_split')
+DEEP_PROBES = ('scan with a tuple as state; the dead-letter observable subscribed after the data pipeline (hot source); an unhandled error travelling through each of 25 further operators before it reaches the demultiplexer; scan(reduce=True) as the failing operator; every input of up to 3 items subscribed a second time on the same observable; four exception classes; two error routers in one pipeline, run twice on the same pipeline object; the failing operator in front of group_by / roll / split / time_split')
 ASSUMPTIONS = ['handlers are placed directly behind the failing operator (as stated)', 'total input length up to 5 (6 in thorough)']
 LEVEL_TEXT = ('Bounded-exhaustive model checking over the fault dimension: every subset of failing positions of every interleaved '
               'keyed input, for each operator/handler pair, against a direct model of "as if the item were absent". A routing '
@@ -76,6 +76,12 @@ def _f_scan(acc, x):
     return acc + x
 
 
+def _f_scan_t(acc, x):
+    if _fails(x):
+        _raise(x)
+    return (acc[0] + x,)
+
+
 def _mapped(e):
     v = _item_of(e)
     return -(v[0] if isinstance(v, tuple) else v) - 1
@@ -94,6 +100,7 @@ OPS = {
     'filter': (lambda: rs.ops.filter(_f_filter), lambda x: [x] if _f_filter(x) else []),
     'scan': (lambda: rs.ops.scan(_f_scan, 0), None),
     'scanr': (lambda: rs.ops.scan(_f_scan, 0, reduce=True), None),     # the form the rs.math aggregates use
+    'scant': (lambda: rx.pipe(rs.ops.scan(_f_scan_t, (0,)), rs.ops.map(lambda t: t[0])), None),     # a container as seed / state
 }
 DOWN = {'scan': [['scan', 'add', '0']], 'count': [['count']], 'last': [['last']], 'to_list': [['to_list']], 'none': []}
 HANDLERS = ['none', 'ignore', 'map', 'router']
@@ -141,6 +148,7 @@ def units(tier):
         for d in SURFACE:
             out.append({'fam': 'api', 'op': o, 'handler': 'none', 'down': d, 'L': 3 if tier == 'quick' else 4})
     out.append({'fam': 'routers', 'L': 4 if tier == 'quick' else 5})
+    out.append({'fam': 'late', 'L': 4 if tier == 'quick' else 6})
     for o in OPS:
         for h in HANDLERS:
             for parent in THROUGH:
@@ -172,6 +180,13 @@ def cases(unit):
             for flags in itertools.product([0, 1, 2], repeat=n):
                 yield {'fam': 'routers', 'flags': list(flags)}
         return
+    if unit['fam'] == 'late':
+        # a hot source; the dead-letter observable gets its subscriber AFTER the data pipeline was subscribed (before any item)
+        for n in range(1, unit['L'] + 1):
+            for flags in itertools.product([0, 1], repeat=n):
+                for o in ('map', 'scan'):
+                    yield {'fam': 'late', 'op': o, 'handler': 'router', 'flags': list(flags)}
+        return
     if unit['fam'] == 'through':
         for n in range(1, unit['L'] + 1):
             for fs in spaces.subsets(n):
@@ -198,7 +213,7 @@ class OpModel(object):
         self.acc = 0
 
     def item(self, x):
-        if self.name == 'scan':
+        if self.name in ('scan', 'scant'):
             self.acc = _f_scan(self.acc, x)
             return [self.acc]
         if self.name == 'scanr':
@@ -370,7 +385,56 @@ def run_through(case, acc):
     return out
 
 
+def run_late(case, acc):
+    from rx.subject import Subject
+    flags = case['flags']
+    items = [100 * (i % 2) + 10 * i + f for i, f in enumerate(flags)]
+    errors, route = rs.error.create_error_router()
+    ops = [OPS[case['op']][0](), route(), rs.ops.count()]
+    src = Subject()
+    sink = Sink()
+    sink.subscribe_to(src.pipe(rs.state.with_memory_store([rs.ops.group_by(lambda x: x // 100 % 10, ops)])))
+    dead = {'items': [], 'completed': 0, 'error': None}
+    errors.subscribe(on_next=lambda e: dead['items'].append(_item_of(e) if isinstance(e, Exception) else repr(e)),
+                     on_error=lambda e: dead.__setitem__('error', e),
+                     on_completed=lambda: dead.__setitem__('completed', dead['completed'] + 1))
+    for x in items:
+        src.on_next(x)
+    src.on_completed()
+    acc.evals += 1
+    acc.events += len(items) + 1
+    acc.traces += 1
+    acc.count('dead_letter_subscribed_after_the_pipeline')
+    out = []
+    want_dead = [x for x in items if x % 10 == 1]
+    want_main = []
+    for g in (0, 1):
+        n_ok = [x for x in items if x // 100 % 10 == g and x % 10 != 1]
+        if any(x // 100 % 10 == g for x in items):
+            want_main.append((g, len(n_ok)))
+    # groups complete in order of first appearance; count() emits one running count per passing item
+    exp = []
+    counts = {}
+    for x in items:
+        g = x // 100 % 10
+        if x % 10 != 1:
+            counts[g] = counts.get(g, 0) + 1
+            exp.append(counts[g])
+    if sink.error is not None or sink.completed != 1:
+        out.append(viol(case, 'late-dead-letter-main-stream-not-completed', {'items': items, 'error': repr(sink.error)}))
+    elif sink.items != exp:
+        out.append(viol(case, 'late-dead-letter-main-output-' + str(harness.diff_kind(exp, sink.items)), {'items': items, 'expected': exp, 'observed': sink.items}))
+    if dead['items'] != want_dead:
+        out.append(viol(case, 'late-dead-letter-' + str(harness.diff_kind(want_dead, dead['items'])), {'items': items, 'expected': want_dead, 'observed': dead['items']}))
+    if dead['completed'] != 1 or dead['error'] is not None:
+        out.append(viol(case, 'late-dead-letter-not-completed-once', {'items': items, 'completed': dead['completed'], 'error': repr(dead['error'])}))
+    acc.outcomes.add(fast_hash(repr((case['op'], flags, sink.items, dead['items']))))
+    return out
+
+
 def run_case(case, acc):
+    if case['fam'] == 'late':
+        return run_late(case, acc)
     if case['fam'] == 'raw':
         return run_raw(case, acc)
     if case['fam'] == 'through':
